@@ -168,6 +168,16 @@ def gen_roc(tier, rng):
         a = F(rng.choice([0, 5, -3]))
         xs = [a, a + rng.choice([1, -1]) * (thr + e) * dt, None][: rng.choice([2, 3])]
         add(xs, axis(rng.choice([0, 1700000000 * NS]), [dt] * (len(xs) - 1)), thr)
+    # 9. a change of exactly threshold x elapsed seconds over steps that are not powers of two (3, 5, 10, 45, 600 s ...):
+    #    the quotient dx / dt is the threshold exactly (no flag), a product with a rounded reciprocal is not
+    for _ in range(200 if thorough else 80):
+        thr = F(rng.choice([F(1, 2), 1, F(3, 2), 3, 5, F(3, 8)]))
+        n = rng.randint(2, 6)
+        steps = [rng.choice([3, 5, 7, 10, 20, 45, 90, 300, 600, 86400, 259200]) for _ in range(n - 1)]
+        xs = [F(rng.choice([0, 5, -3]))]
+        for s in steps:
+            xs.append(xs[-1] + rng.choice([1, -1]) * thr * s)
+        add(xs, axis(rng.choice([0, 1700000000 * NS]), steps), thr)
     cases += big_shift_copies(cases, "xs", rng, 150 if tier == "quick" else 1500, lambda c: len(c["xs"]) == len(c["ts_ns"]))
     return cases
 
